@@ -18,6 +18,7 @@ import (
 	"bytes"
 	"fmt"
 	"math"
+	"sort"
 	"strings"
 
 	"github.com/go-enry/go-enry/v2"
@@ -218,11 +219,8 @@ func (p *contentProvider) scoreLineBM25(ms []*candidateMatch, lineNumber int) (f
 	lineLength := nl.lineStart(lineNumber+1) - nl.lineStart(lineNumber)
 	L := float64(lineLength) / 100.0
 
-	score := 0.0
 	tfs := p.calculateTermFrequency(ms, false) // ignore file priority, since we're just scoring within a single file
-	for _, f := range tfs {
-		score += tfScore(k, b, L, f)
-	}
+	score, _ := sumTFScores(k, b, L, tfs)
 
 	// Check if any index comes from a symbol match tree, and if so hydrate in symbol information
 	var symbolInfo []*zoekt.Symbol
@@ -244,6 +242,23 @@ func (p *contentProvider) scoreLineBM25(ms []*candidateMatch, lineNumber int) (f
 // tfScore is the term frequency score for BM25.
 func tfScore(k float64, b float64, L float64, f int) float64 {
 	return ((k + 1.0) * float64(f)) / (k*(1.0-b+b*L) + float64(f))
+}
+
+// sumTFScores adds up the BM25 term frequency scores of all terms. It adds them
+// in a fixed order: floating point addition is not associative and map
+// iteration order is random, so summing in map order makes the score of the
+// same file differ in the last bits from one search to the next.
+func sumTFScores(k float64, b float64, L float64, termFreqs map[string]int) (score float64, sumTF int) {
+	freqs := make([]int, 0, len(termFreqs))
+	for _, f := range termFreqs {
+		freqs = append(freqs, f)
+	}
+	sort.Ints(freqs)
+	for _, f := range freqs {
+		sumTF += f
+		score += tfScore(k, b, L, f)
+	}
+	return score, sumTF
 }
 
 const importantTermBoost = 5
@@ -379,12 +394,8 @@ func (d *indexData) scoreFileBM25(fileMatch *zoekt.FileMatch, doc uint32, cands 
 
 	L := fileLength / averageFileLength
 
-	bm25Score := 0.0
-	sumTF := 0 // Just for debugging
-	for _, f := range tf {
-		sumTF += f
-		bm25Score += tfScore(k, b, L, f)
-	}
+	// sumTF is just for debugging
+	bm25Score, sumTF := sumTFScores(k, b, L, tf)
 
 	score := boostScore(bm25Score, cands)
 	boosted := score != bm25Score
